@@ -68,7 +68,7 @@ func vShapeState(cfg *vHistCfg, maxH int, extra int, modes []int) *vHist {
 		leaves = shape.leaves
 	}
 	n := leaves + extra
-	h.p = vNewPool(n, vLenVector(n, cfg.lenVars))
+	h.p = vNewPool(n, vLenVectorFor(cfg, n))
 	// which pool indices are absent: choose `extra` positions (ascending)
 	idx := make([]int, 0, leaves)
 	skip := make([]bool, n)
